@@ -42,6 +42,8 @@ def run(ctx):
     ctx.do(rule_single_use_iterators, "C18.iterator-pitfalls", ("stix2.datastore", "stix2.environment", "stix2.utils"))
     from .hidden_state import rule_no_hidden_state
     ctx.do(rule_no_hidden_state, "C18.history-independence")
+    from .pitfalls import rule_loops_not_cut_short
+    ctx.do(rule_loops_not_cut_short, "C18.loops-complete")
 
 
 def rule_member_forward(ctx, rule_id="C18.member-forward"):
